@@ -13,6 +13,7 @@ import (
 	"os"
 	"path/filepath"
 	"sort"
+	"strconv"
 	"strings"
 	"testing"
 )
@@ -350,6 +351,31 @@ func wireApply(op string) (obs string) {
 		data, err := EncodeMessage(msg)
 		if err != nil {
 			return "encode-error"
+		}
+		back, _ := decTok(data)
+		return tokJSON(data) + " | " + back
+	case "encind":
+		// EncodeIndent: the same message, laid out with a prefix and an indent (insignificant white
+		// space only): it must denote the value EncodeMessage writes, and decode to the message
+		lay := [][2]string{{"", "  "}, {"", "\t"}, {" ", " "}, {"\t", ""}, {"", ""}}
+		k, err := strconv.Atoi(p.next())
+		if err != nil || k < 0 || k >= len(lay) {
+			return "bad-op"
+		}
+		m, ok := p.msg()
+		if !ok {
+			return "bad-op"
+		}
+		msg, ok := m.toMessage()
+		if !ok {
+			return "bad-op"
+		}
+		data, err := EncodeIndent(msg, lay[k][0], lay[k][1])
+		if err != nil {
+			return "encode-error"
+		}
+		if len(data) == 0 || data[len(data)-1] == '\n' {
+			return "badlayout"
 		}
 		back, _ := decTok(data)
 		return tokJSON(data) + " | " + back
@@ -797,7 +823,7 @@ func runCases(t *testing.T, out *verifOut, stream string, apply func(string) str
 		var mine []string
 		for _, op := range readOps(t, rp) {
 			switch k := strings.Fields(op)[0]; {
-			case stream == "ids" && k == "idecho", stream == "msg" && (k == "encdec" || k == "decenc" || k == "casedec" || k == "casedec.err" || k == "werr" || k == "fuzzdec"):
+			case stream == "ids" && k == "idecho", stream == "msg" && (k == "encdec" || k == "encind" || k == "decenc" || k == "casedec" || k == "casedec.err" || k == "werr" || k == "fuzzdec"):
 				mine = append(mine, op)
 			}
 		}
@@ -844,6 +870,9 @@ func msgTags(op, obs string) []string {
 		if len(f) > 2 {
 			tags = append(tags, "id:"+idClass(f[2]))
 		}
+	case "encind":
+		f := strings.Fields(op)
+		tags = append(tags, "layout:"+f[1], "msg:"+f[2])
 	case "decenc", "casedec", "casedec.err":
 		if strings.HasPrefix(obs, "ok req") {
 			tags = append(tags, "dec:request")
@@ -931,6 +960,9 @@ func TestVerifWireMsg(t *testing.T) {
 			var ops []string
 			for i := 0; i < 4; i++ {
 				ops = append(ops, "encdec "+genMsg(r).tok())
+				if r.Intn(2) == 0 {
+					ops = append(ops, fmt.Sprintf("encind %d ", r.Intn(5))+genMsg(r).tok())
+				}
 			}
 			for i := 0; i < 5; i++ {
 				ops = append(ops, "decenc "+revTok(r)+genWire(r).tok())
